@@ -1,0 +1,20 @@
+//go:build verif
+
+// Contracts for package handlers (compiled only with -tags=verif; checked by /verif/bin/govc). Properties C06, C02, C07, C14.
+package handlers
+
+// C06: "Restoring a target from the cache reproduces its declared outputs exactly ... regardless of what currently sits at
+// the output paths (absent, absent parent directories, modified or truncated content ...)".
+//@ func (*FileOutputHandler).Load(f, ctx, target, output, tracker) (err)
+//@   define DEST() string = pathJoin(config.Global.WorkspaceRoot, pathJoin(target.Label.Package, asPtr(output.Kind, "*gen.Output_File").File.Path))
+//@   define DIGEST() string = asPtr(output.Kind, "*gen.Output_File").File.Digest.Hash
+//@   requires [file_output] typeIs(output.Kind, "*gen.Output_File") && asPtr(output.Kind, "*gen.Output_File").File != nil && asPtr(output.Kind, "*gen.Output_File").File.Digest != nil
+//@   requires [cas_well_formed] forall d string :: {select(bdata, "cas/" + d)} has(bstored, "cas/" + d) ==> H(select(bdata, "cas/" + d)) == d
+//@   ensures [content_exact] err == nil ==> has(fsIsFile, DEST()) && H(select(fsData, DEST())) == DIGEST()
+//@   ensures [exec_bit_restored] err == nil && asPtr(output.Kind, "*gen.Output_File").File.IsExecutable ==> has(fsExec, DEST())
+
+// C14: "every declared output exists afterwards"; C07: the digest handed to the CAS is the digest of the bytes streamed
+//@ func (*FileOutputHandler).Write(f, ctx, target, output, tracker) (r, err)
+//@   requires [memo_sound] forall d string :: {has(casMemo, d)} has(casMemo, d) ==> has(bstored, "cas/" + d)
+//@   ensures [missing_output_is_error] !has(fsIsFile, pathJoin(config.Global.WorkspaceRoot, pathJoin(target.Label.Package, output.Identifier))) ==> err != nil
+//@   ensures [nil_on_error] err != nil ==> r == nil
